@@ -22,6 +22,8 @@ pub(crate) fn meta_2_expr(meta: &Meta) -> syn::Result<Expr> {
 
 #[inline]
 pub(crate) fn auto_adjust_expr(expr: Expr, ty: Option<&Type>) -> Expr {
+    let ty = ty.map(super::r#type::ungroup);
+
     match &expr {
         Expr::Lit(lit) => {
             match &lit.lit {
